@@ -5,6 +5,11 @@
 set -u
 export GOFLAGS=-mod=mod GOPROXY=off GOSUMDB=off GOTOOLCHAIN=local
 D=$1; TGT=$2; PROPS=$3; TIER=${4:-quick}
+if [ "$TGT" = "auto" ]; then
+  demo0=$(ls $D/*.go $D/*.go.txt 2>/dev/null | head -1)
+  pk0=$(grep -m1 '^package ' $demo0 | awk '{print $2}' | sed 's/_test$//')
+  case "$pk0" in tabula|main) TGT=. ;; *) if [ -d /repo/$pk0 ]; then TGT=$pk0; elif [ -d /repo/internal/$pk0 ]; then TGT=internal/$pk0; else TGT=zzdemo; fi ;; esac
+fi
 W=/tmp/wt-me
 name=$(basename $D)
 cd $W && git checkout -q -- . && git clean -fdq && git checkout -q --detach main
